@@ -334,6 +334,7 @@ func (c *Ctx) repositoryValues() {
 	run.Count("repository_value_rules", n)
 	run.Floor("repository_value_rules", 4)
 	c.sqlWiring()
+	c.sqlPool()
 }
 
 // sqlWiring: see the comment at the top of the file.
@@ -527,4 +528,113 @@ func (c *Ctx) sqlWiring() {
 	}
 	run.Count("sql_statement_uses", nUse)
 	run.Floor("sql_statement_uses", 4)
+	// Assets: every name scanned from a row is appended to the list that is returned
+	if fi := c.fn("asset", "SQLRepository", "Assets"); fi != nil && fi.Decl.Body != nil {
+		why := "no row is scanned (undecided, fails closed)"
+		for _, body := range c.familyBodies(fi) {
+			ast.Inspect(body, func(nd ast.Node) bool {
+				call, ok := nd.(*ast.CallExpr)
+				if !ok || !strings.HasSuffix(calleeName(info, call), "database/sql.(Rows).Scan") || len(call.Args) != 1 {
+					return true
+				}
+				u, isU := ast.Unparen(call.Args[0]).(*ast.UnaryExpr)
+				if !isU || u.Op != token.AND {
+					why = "the row is not scanned into a variable"
+					return true
+				}
+				vid, isID := ast.Unparen(u.X).(*ast.Ident)
+				if !isID {
+					why = "the row is not scanned into a variable"
+					return true
+				}
+				vobj := info.ObjectOf(vid)
+				why = "the name scanned from a row is not appended to the list Assets returns: assets that hold snapshots are missing from the list"
+				ast.Inspect(body, func(m ast.Node) bool {
+					as, ok := m.(*ast.AssignStmt)
+					if !ok || len(as.Lhs) != 1 || len(as.Rhs) != 1 {
+						return true
+					}
+					ap, isCall := as.Rhs[0].(*ast.CallExpr)
+					if !isCall || len(ap.Args) != 2 {
+						return true
+					}
+					if id, isID := ap.Fun.(*ast.Ident); !isID || id.Name != "append" || exprString(ap.Args[0]) != exprString(as.Lhs[0]) {
+						return true
+					}
+					if aid, isID := ast.Unparen(ap.Args[1]).(*ast.Ident); isID && info.ObjectOf(aid) == vobj {
+						// and that list is what a success return hands back
+						lst, _ := as.Lhs[0].(*ast.Ident)
+						ast.Inspect(body, func(q ast.Node) bool {
+							if r, isRet := q.(*ast.ReturnStmt); isRet && len(r.Results) == 2 && isNilIdent(r.Results[1]) {
+								if rid, isID := ast.Unparen(r.Results[0]).(*ast.Ident); isID && lst != nil && info.ObjectOf(rid) == info.ObjectOf(lst) {
+									why = ""
+								}
+							}
+							return true
+						})
+					}
+					return true
+				})
+				return true
+			})
+		}
+		run.Oblige(why == "")
+		if why != "" {
+			c.violate("repository/sql-wiring", "asset.(*SQLRepository).Assets", short(why, 60), fi.Decl.Pos(), why)
+		}
+	}
+}
+
+// sqlPool: a stream handed out by the SQL repository keeps its rows - and with them a connection
+// of the pool - until it has been read to its end. database/sql's pool is unbounded unless it is
+// capped; with a cap every other call of the repository waits for a connection while streams
+// are open (with a cap of one: forever, after the first unread stream). Rule: non-test code does
+// not cap the pool (SetMaxOpenConns with anything but a constant <= 0). The expected count is
+// zero; the matcher is tried on the method object of the loaded database/sql on every run.
+func (c *Ctx) sqlPool() {
+	run := c.Run
+	run.Explanation += " The SQL connection pool is not capped (every open stream holds a connection until it is read to its end)."
+	isCap := func(fn *types.Func) bool {
+		return fn != nil && qualName(fn) == "database/sql.(DB).SetMaxOpenConns"
+	}
+	ap := c.P.Pkg("asset")
+	if ap == nil {
+		return
+	}
+	matcherWorks := false
+	for _, imp := range ap.Types.Imports() {
+		if imp.Path() != "database/sql" {
+			continue
+		}
+		if tn, _ := imp.Scope().Lookup("DB").(*types.TypeName); tn != nil {
+			obj, _, _ := types.LookupFieldOrMethod(types.NewPointer(tn.Type()), true, imp, "SetMaxOpenConns")
+			if fn, _ := obj.(*types.Func); isCap(fn) {
+				matcherWorks = true
+			}
+		}
+	}
+	run.Oblige(matcherWorks)
+	if !matcherWorks {
+		c.violate("repository/sql-pool", "asset", "matcher", ap.Syntax[0].Pos(), "the rule could not find database/sql.(*DB).SetMaxOpenConns through the asset package's imports: the pool rule would pass vacuously (fails closed)")
+	}
+	for _, pk := range c.P.Pkgs {
+		for _, f := range pk.Syntax {
+			if strings.HasSuffix(c.P.Fset.Position(f.Pos()).Filename, "_test.go") {
+				continue
+			}
+			ast.Inspect(f, func(n ast.Node) bool {
+				call, ok := n.(*ast.CallExpr)
+				if !ok || len(call.Args) != 1 || !isCap(callee(pk.TypesInfo, call)) {
+					return true
+				}
+				if v, isC := constInt(pk.TypesInfo, call.Args[0]); isC && v <= 0 {
+					return true // "no limit"
+				}
+				run.Oblige(false)
+				c.violate("repository/sql-pool", load.RelPkg(pk.PkgPath), "SetMaxOpenConns("+short(exprString(call.Args[0]), 20)+")", call.Pos(),
+					"the connection pool is capped: every stream returned by Get/GetSince holds a connection until it is read to its end, so further calls of the repository wait for as long as such streams are open")
+				return true
+			})
+		}
+	}
 }
